@@ -100,15 +100,11 @@ def everyNth {α : Type} (step : Nat) : Nat → List α → List α
 
 /-- `itertools.islice(xs, start, None, step)` for `step ≥ 1`.  For `step = 0`
     Python raises `ValueError` ("Step for islice() must be a positive integer or
-    None"): see `strideE`; `stride _ 0` itself is a junk value that no theorem
-    relies on (every theorem about `stride` carries `1 ≤ step`, the readers go
-    through the `step = 0` test of `parseFileWith`). -/
+    None"): that error is in the readers (`parseFileWith` tests `step = 0`
+    first); `stride _ 0` itself is a junk value that no theorem relies on
+    (every theorem about `stride` carries `1 ≤ step`; the word counter
+    `wordsSymbolsE` tests `n = 0` first). -/
 def stride {α : Type} (start step : Nat) (xs : List α) : List α := everyNth step start xs
-
-/-- `list(itertools.islice(xs, start, None, step))` with its error: `none` =
-    `ValueError` at `step = 0`. -/
-def strideE {α : Type} (start step : Nat) (xs : List α) : Option (List α) :=
-  if step = 0 then none else some (stride start step xs)
 
 /-! ## Writer: `events_to_file` (io.py:67-127) -/
 
